@@ -205,12 +205,12 @@ def main():
              "kind_free_text": "explicit-state breadth-first search over event histories of the real PfcpServer event loop (replay from scratch on a fresh server per successor, canonical state key, reference model + oracle on every transition, worker processes)"},
             {"name": E2, "path": "harness/internal/verif", "serves_properties": sorted(k for k, c in CHECKS.items() if c["engine"] == E2),
              "kind_free_text": "bounded-exhaustive enumeration of input shapes through the real translation/codec functions, decoded by independent reference decoders"},
-            {"name": E3, "path": "harness/internal/verif/vsched", "serves_properties": sorted(k for k, c in CHECKS.items() if c["engine"] == E3),
-             "kind_free_text": "controlled cooperative scheduler over mechanically rewritten channel/timer operations of the real goroutines; preemption-bounded depth-first exploration of all schedules"},
+            {"name": E3, "path": "harness/internal/verif/vsched", "serves_properties": sorted(set(k for k, c in CHECKS.items() if c["engine"] == E3) | {"C15"}),
+             "kind_free_text": "controlled cooperative scheduler over mechanically rewritten channel / timer / go / map-range constructs of the real goroutines (tools/rewrite); iterative preemption-bounded depth-first exploration of all schedules with global-state-key pruning, wait-for-cycle deadlock identification, happens-before data-race oracle (vector clocks + inserted access reports), schedule replay"},
         ],
         "checks": checks,
         "not_applicable": na,
-        "notes": "All checks run the implementation itself (no separate model to keep in sync): states/transitions are executions of /repo's current working tree. exit 2 + 'INFRA' = infrastructure error (never a VIOLATION line). known_findings.json lists recorded and fixed defects.",
+        "notes": "All checks run the implementation itself (no separate model to keep in sync): states/transitions are executions of /repo's current working tree. exit 2 + 'INFRA' = infrastructure error (never a VIOLATION line). known_findings.json lists recorded and fixed defects (replay artefacts of the recorded ones under known_finding_replays/). ./check replay <path> re-executes a stored history (E1) or schedule (E3) without the explorer. /verif/seeded/ holds independently written property-breaking changes with demonstrations; tools/mutest.sh applies one, runs the repository's tests and a check, and reverts. DESIGN.md section 11 describes the machinery as built.",
     }
     with open(os.path.join(V, "MANIFEST.json"), "w") as fh:
         json.dump(m, fh, indent=1)
